@@ -152,6 +152,11 @@ fn count_osstr_chars_for_exec(s: &OsStr) -> usize {
 struct MaxCharsCommandSizeLimiter {
     current_size: usize,
     max_chars: usize,
+    /// Charged for every argument on top of its text and terminator (the
+    /// system also counts the pointer to it; nothing for -s).
+    overhead_per_arg: usize,
+    /// Largest single argument (text and terminator) that can be passed at all.
+    max_arg_chars: usize,
 }
 
 impl MaxCharsCommandSizeLimiter {
@@ -159,6 +164,8 @@ impl MaxCharsCommandSizeLimiter {
         Self {
             current_size: 0,
             max_chars,
+            overhead_per_arg: 0,
+            max_arg_chars: usize::MAX,
         }
     }
 
@@ -174,14 +181,32 @@ impl MaxCharsCommandSizeLimiter {
         // POSIX requires that we leave 2048 bytes of space so that the child processes
         // can have room to set their own environment variables.
         const ARG_HEADROOM: usize = 2048;
+        // The kernel charges a pointer for every argument and environment
+        // entry (and for the two terminating null pointers) against the same
+        // budget as the strings, and refuses a single string longer than 32
+        // pages (MAX_ARG_STRLEN) whatever the budget is.
+        const POINTER_SIZE: usize = std::mem::size_of::<*const std::ffi::c_char>();
+        const MAX_ARG_PAGES: usize = 32;
         let arg_max = unsafe { uucore::libc::sysconf(uucore::libc::_SC_ARG_MAX) } as usize;
+        let page_size = unsafe { uucore::libc::sysconf(uucore::libc::_SC_PAGESIZE) } as usize;
 
         let env_size: usize = env
             .iter()
-            .map(|(var, value)| count_osstr_chars_for_exec(var) + count_osstr_chars_for_exec(value))
+            .map(|(var, value)| {
+                count_osstr_chars_for_exec(var) + count_osstr_chars_for_exec(value) + POINTER_SIZE
+            })
             .sum();
 
-        Self::new(arg_max - ARG_HEADROOM - env_size)
+        Self {
+            overhead_per_arg: POINTER_SIZE,
+            max_arg_chars: MAX_ARG_PAGES * page_size,
+            ..Self::new(
+                arg_max
+                    .saturating_sub(ARG_HEADROOM)
+                    .saturating_sub(2 * POINTER_SIZE)
+                    .saturating_sub(env_size),
+            )
+        }
     }
 }
 
@@ -192,6 +217,13 @@ impl CommandSizeLimiter for MaxCharsCommandSizeLimiter {
         cursor: LimiterCursor<'_>,
     ) -> Result<Argument, ExhaustedCommandSpace> {
         let chars = count_osstr_chars_for_exec(&arg.arg);
+        if chars > self.max_arg_chars {
+            return Err(ExhaustedCommandSpace {
+                arg,
+                out_of_chars: true,
+            });
+        }
+        let chars = chars + self.overhead_per_arg;
         if self.current_size + chars <= self.max_chars {
             let arg = cursor.try_next(arg)?;
             self.current_size += chars;
